@@ -89,7 +89,7 @@ class Recorder:
         sd = None
         if mode != "det":
             sd = float(self.sdfun(xc))
-            y = y + sd * float(np.random.normal())
+            y = y + float(self.noise.get("actual", 1.0)) * sd * float(np.random.normal())
         rec["y"] = y
         rec["sd"] = sd
         if fk is not None:
